@@ -40,7 +40,7 @@ RULE = ("each run draws a server byte stream from a response grammar (every stat
         "plain connection, or GeminiClient.get/upload over TLS with a timeout of 1-30 s); baseline "
         "and segmented variant are both run. distinct = distinct (stream class, end, entry, result "
         "class); non-trivial = the stream was corrupted, cut short or segmented")
-PROBES = ["unknown_charset", "nontext_codec", "over_cap", "stall_timeout", "rst_mid_body",
+PROBES = ["overlapping_calls_on_one_client", "upload_larger_than_socket_buffers", "unknown_charset", "nontext_codec", "over_cap", "stall_timeout", "rst_mid_body",
           "fin_without_close_notify", "invalid_header", "must_succeed_core", "tls_entry",
           "titan_entry", "non2x_with_trailing_bytes", "connect_phase_fault", "trickling_server"]
 COMPONENTS = {
@@ -408,10 +408,213 @@ def connect_fault_case(ch, res):
     return res
 
 
+def big_upload_case(ch, res):
+    """An upload too large for the socket buffers against a server that stops
+    reading: the call still ends - at the timeout, or with the server's early
+    answer - and a server that reads everything is answered faithfully."""
+    from nauyaca.client.session import GeminiClient
+    sim = Sim(ch)
+    net = sim.net
+    size = ch.pick("usize", [300_000, 1_200_000, 3_000_000])
+    how = ch.pick("uhow", ["never-reads", "answers-without-reading", "reads-some-then-stops",
+                           "reads-all"], [3, 3, 2, 2])
+    T = ch.pick("utimeout", [5.0, 1.0, 12.0])
+    tofu = bool(ch.choose("utofu", 2))
+    scratch = fresh_dir("c13u")
+    content = (b"0123456789abcdef" * (size // 16 + 1))[:size]
+    line_len = len(f"titan://{HOST}/up;size={size};mime=application/octet-stream;token=t\r\n")
+
+    def beh(i, srv):
+        if how == "never-reads":
+            return {"script": [("stall",)], "reader": "never"}
+        if how == "answers-without-reading":
+            return {"script": [("sleep", 0.05), ("send", b"59 upload too large\r\n"), ("close",)],
+                    "reader": "never"}
+        if how == "reads-some-then-stops":
+            return {"script": [("wait_bytes", 100_000),
+                               ("call", lambda p: setattr(p, "reader", "never")), ("stall",)]}
+        return {"script": [("wait_bytes", line_len + size), ("send", b"20 text/plain\r\nstored\n"),
+                           ("close",)]}
+    ScriptedServer(sim, HOST, 1965, "rsa1", beh, tls=True)
+    out = {}
+
+    async def main():
+        cl = GeminiClient(timeout=T, trust_on_first_use=tofu, tofu_db_path=pathlib.Path(scratch, "t.db"))
+        try:
+            r = await cl.upload(f"gemini://{HOST}/up", content, mime_type="application/octet-stream",
+                                token="t")
+            out["res"] = ("resp", r.status, r.meta, r.body)
+        except BaseException as e:  # noqa
+            out["res"] = ("exc", type(e).__name__, isinstance(e, Exception)
+                          and not isinstance(e, asyncio.CancelledError))
+        out["t_done"] = net.now
+    status = sim.run(main(), horizon=3 * T + 120.0, max_iterations=3_000_000)
+    if sim.error is not None:
+        raise sim.error
+    r = out.get("res")
+    ctx = dict(upload_size=size, server=how, timeout=T, tofu=tofu, result=r and r[:3],
+               t_done=out.get("t_done"))
+    if status != "done" or r is None:
+        res.violate(f"C13/call-never-returned/big-upload/{how}",
+                    f"the upload was still pending when the simulation ran out ({status})", **ctx)
+    elif how in ("never-reads", "reads-some-then-stops"):
+        if out["t_done"] > T + 12.0:
+            # the bound is generous: time to hand the content over is not pinned down
+            res.violate(f"C13/never-finishing-server-not-cut-off/big-upload/{how}",
+                        f"server stopped reading and never answered: call ended at "
+                        f"{out['t_done']:.3f}, timeout {T}", **ctx)
+        if r[0] == "resp":
+            res.violate(f"C13/response-from-nowhere/big-upload/{how}",
+                        "a response was returned although the server never sent one", **ctx)
+        elif not r[2]:
+            res.violate(f"C13/non-exception-escaped/{r[1]}/big-upload",
+                        f"the call raised {r[1]}, not an ordinary Exception", **ctx)
+    elif how == "answers-without-reading":
+        if r[0] == "resp":
+            if (r[1], r[2], r[3]) != (59, "upload too large", None):
+                res.violate("C13/unfaithful-response/big-upload",
+                            "the response returned is not what the server sent", **ctx)
+            elif out["t_done"] > 1.0 + 0.5:
+                res.violate("C13/not-prompt-after-peer-finished/big-upload",
+                            f"server answered 59 and closed at 0.05 s; the call ended at "
+                            f"{out['t_done']:.3f}", **ctx)
+        elif not r[2] or out["t_done"] > T + 12.0:
+            res.violate(f"C13/call-not-bounded/big-upload/{how}",
+                        f"call ended at {out['t_done']:.3f} with {r[1]}", **ctx)
+    else:
+        if r[0] != "resp" or (r[1], r[2], r[3]) != (20, "text/plain", "stored\n"):
+            if not (r[0] == "exc" and r[1] == "TimeoutError" and out["t_done"] >= T):
+                res.violate("C13/unfaithful-response/big-upload",
+                            "the server read the whole upload and answered 20; the call did not "
+                            "return that response", **ctx)
+    res.stats["upload_larger_than_socket_buffers"] += 1
+    res.sim_seconds = net.now
+    res.signature = hashlib.sha256(repr(("bigup", size, how, T, (r or ("none",))[:2])).encode()
+                                   ).hexdigest()[:16]
+    res.digest = sim.digest()
+    res.nontrivial = True
+    res.sample = ctx
+    return res
+
+
+def overlap_case(ch, res):
+    """Several calls in flight on ONE client object (the proxy handler shares its
+    client this way): each call's result is its own server stream, whatever the
+    other calls are doing and whichever finishes first."""
+    from nauyaca.client.session import GeminiClient
+    sim = Sim(ch)
+    net = sim.net
+    n = 2 + ch.choose("on", 2, [3, 1])
+    T = ch.pick("otimeout", [5.0, 30.0])
+    tofu = bool(ch.choose("otofu", 2))
+    scratch = fresh_dir("c13o")
+    plans = []
+    for i in range(n):
+        plans.append({
+            "start": ch.pick("ostart", [0.0, 0.001, 0.05, 0.3]) if i else 0.0,
+            "gap": ch.pick("ogap", [0.0, 0.02, 0.2, 1.0]),
+            "kind": ch.pick("okind", ["get", "upload"], [3, 1]),
+            "end": ch.pick("oend", ["close", "rst-early", "stall"], [6, 1, 1]),
+            "status": ch.pick("ostatus", [20, 20, 51, 30]),
+            "len": ch.pick("olen", [10, 2000, 40000]),
+        })
+    by_path = {}
+
+    def beh(idx, srv):
+        def respond(peer):
+            line = bytes(peer.rx_plain).split(b"\r\n")[0].decode("latin-1")
+            k = int(line.split("/call")[1][0]) if "/call" in line else 0
+            peer.plan_k = k
+            pl = plans[k]
+            body = (f"call {k} line\n" * (pl["len"] // 12 + 1)).encode()[:pl["len"]]
+            pl["body"] = body
+            if pl["end"] == "rst-early":
+                peer.outq.clear()
+                peer.closed = True
+                peer.ep.rst()
+                return
+            if pl["status"] == 20:
+                peer.send_app(b"20 text/plain\r\n" + body[:len(body) // 2])
+            else:
+                peer.send_app(f"{pl['status']} meta of call {k}\r\n".encode())
+
+        def rest(peer):
+            pl = plans[peer.plan_k]
+            if pl["end"] == "rst-early":
+                return
+            if pl["status"] == 20:
+                peer.send_app(pl["body"][len(pl["body"]) // 2:])
+            if pl["end"] == "stall":
+                peer.stalled = True
+                peer.waiting = "sleep"     # never woken: the script ends here
+        return {"script": [("wait_line",), ("call", respond),
+                           ("call", lambda p: (setattr(p, "waiting", "sleep"),
+                                               net.after(plans[p.plan_k]["gap"], p._wake))),
+                           ("call", rest), ("close",)]}
+    ScriptedServer(sim, HOST, 1965, "rsa1", beh, tls=True)
+    results = {}
+
+    async def main():
+        cl = GeminiClient(timeout=T, trust_on_first_use=tofu, tofu_db_path=pathlib.Path(scratch, "t.db"))
+
+        async def one(k):
+            pl = plans[k]
+            if pl["start"]:
+                await asyncio.sleep(pl["start"])
+            t0 = net.now
+            try:
+                if pl["kind"] == "get":
+                    r = await cl.get(f"gemini://{HOST}/call{k}", follow_redirects=False)
+                else:
+                    r = await cl.upload(f"gemini://{HOST}/call{k}", b"payload %d" % k, token="t")
+                results[k] = ("resp", r.status, r.meta, r.body, net.now - t0)
+            except BaseException as e:  # noqa
+                results[k] = ("exc", type(e).__name__, str(e)[:120], None, net.now - t0)
+        await asyncio.gather(*[one(k) for k in range(n)])
+    status = sim.run(main(), horizon=3 * T + 60.0, max_iterations=800000)
+    if sim.error is not None:
+        raise sim.error
+    ctx = dict(calls=[{k: v for k, v in pl.items() if k != "body"} for pl in plans], timeout=T,
+               tofu=tofu, results={k: (v[0], v[1], v[2], v[4]) for k, v in results.items()})
+    if status != "done" or len(results) != n:
+        res.violate("C13/call-never-returned/overlapping-calls",
+                    f"a call was still pending when the simulation ran out ({status})", **ctx)
+    else:
+        for k, pl in enumerate(plans):
+            r = results[k]
+            if pl["end"] == "close":
+                want = ("resp", 20, "text/plain", pl["body"].decode()) if pl["status"] == 20 else \
+                    ("resp", pl["status"], f"meta of call {k}", None)
+                if r[:4] != want:
+                    res.violate("C13/unfaithful-response/overlapping-calls",
+                                f"call {k} on a shared client did not return its own server's "
+                                f"complete response (got {r[:3]!r}, body "
+                                f"{len(r[3]) if r[3] is not None else None} of "
+                                f"{len(pl.get('body', b''))} bytes)", **ctx)
+                    break
+            elif r[0] == "resp" and pl["status"] == 20:
+                res.violate("C13/unfaithful-response/overlapping-calls",
+                            f"call {k}: the server {pl['end']} yet a 2x response was returned", **ctx)
+                break
+    res.stats["overlapping_calls_on_one_client"] += 1
+    res.sim_seconds = net.now
+    res.signature = hashlib.sha256(repr(("overlap", [(p["kind"], p["end"], p["status"], p["gap"],
+                                                      p["start"]) for p in plans],
+                                         sim.signature())).encode()).hexdigest()[:16]
+    res.digest = sim.digest()
+    res.nontrivial = True
+    res.sample = ctx
+    return res
+
+
 def run_one(ch):
     res = RunResult()
     if ch.chance("connectfault", 0.08):
         return connect_fault_case(ch, res)
+    if ch.chance("overlap", 0.04):
+        return overlap_case(ch, res)
+    if ch.chance("bigupload", 0.03):
+        return big_upload_case(ch, res)
     cap = ch.pick("cap", [1 << 20, 4096, 65536, 16384])
     info = gen_stream(ch, cap)
     n = len(info["stream"])
